@@ -307,9 +307,12 @@ def longlived_stream(ctx, items, where):
     interleaved with the malformed ones -- are solved by ONE instance inside one `with` block."""
     from scinumtools.solver import ExpressionSolver
 
+    from scinumtools.solver.expression import Expression
+
     def once(es, text):
+        # both public input kinds of solve(): the text, or (for every third string) a new Expression object
         try:
-            return L.canon_result(es.solve(text))
+            return L.canon_result(es.solve(Expression(text) if len(text) % 3 == 0 else text))
         except Exception:
             return "err"
 
